@@ -635,3 +635,40 @@ theorem runF_accepted (G : Table) : (hs : List Call) → (F : Forest) → (∀ c
       · rw [h]; exact runF_accepted G rest F hrest
 
 end Pg.C08
+
+namespace Pg.C08
+open Tree
+
+/-! ### round 4: threads -/
+
+theorem threads_act_other (ts : Threads) (t u : Nat) (a : ScopeAct) (h : u ≠ t) : (ts.act t a) u = ts u := by
+  simp [Threads.act, h]
+
+theorem threads_act_self (ts : Threads) (t : Nat) (a : ScopeAct) : (ts.act t a) t = (ts t).act a := by
+  simp [Threads.act]
+
+/-- The scopes of thread `t` after a history are what its OWN enter / leave actions made of its
+initial scopes: nothing any other thread does (scopes or calls, in any interleaving) shows in them. -/
+theorem runT_scopes (G : Table) (t : Nat) : (hs : List TStep) → (st : Threads × Forest) →
+    (runT G st hs).1 t = (ownActs t hs).foldl Env.act (st.1 t)
+  | [], st => rfl
+  | .scope u a :: rest, st => by
+    simp only [runT, stepT, ownActs]
+    rw [runT_scopes G t rest]
+    by_cases h : u = t
+    · subst h; simp [threads_act_self]
+    · have : t ≠ u := fun e => h e.symm
+      simp [h, threads_act_other _ _ _ _ this]
+  | .call u tree path op :: rest, st => by
+    simp only [runT, stepT, ownActs]
+    rw [runT_scopes G t rest]
+
+theorem env_enter_leave_sealed (env : Env) (v : Option Bool) :
+    (env.act (.enterSealed v)).act .leaveSealed = env := by
+  cases env; rfl
+
+theorem env_enter_leave_acc (env : Env) (v : Option Bool) :
+    (env.act (.enterAcc v)).act .leaveAcc = env := by
+  cases env; rfl
+
+end Pg.C08
